@@ -26,7 +26,8 @@ uint64_t gdsii_real_from_double(double value) {
     }
     const double fexp = 0.25 * log2(value);
     double exponent = ceil(fexp);
-    if (exponent == fexp) exponent++;
+    // log2 may round up to an integer for values just below a power of 16
+    if (exponent == fexp && value >= exp2(4 * exponent)) exponent++;
     const uint64_t mantissa = (uint64_t)(value * pow(16, 14 - exponent));
     u8_1 += (uint8_t)(64 + exponent);
     const uint64_t result = ((uint64_t)u8_1 << 56) | (mantissa & 0x00FFFFFFFFFFFFFF);
